@@ -212,7 +212,7 @@ def first_nodes(roots):
     return first
 
 
-def run_config(scn, world: World, cfg: dict, res: Result, H: History, reference=None):
+def run_config(scn, world: World, cfg: dict, res: Result, H: History, reference=None, reference_late=None):
     """Run the request sequence under one configuration; return the outcomes."""
     tbs = world.make_system()
     knobs = dict(scn["knobs"])
@@ -228,6 +228,7 @@ def run_config(scn, world: World, cfg: dict, res: Result, H: History, reference=
         sim = build_sim(world, scn["situation"], knobs, scn["inputs"], tbs=tbs)
         calls = watch_calls(sim)
         held = set(readable(sim, env))  # inputs actually held before any request
+        kept = []  # every array a request returned, looked at again at the end
         traced_since = 0 if knobs.get("trace") else None
         frames_total = 0
         for step, op in enumerate(scn["ops"]):
@@ -241,6 +242,7 @@ def run_config(scn, world: World, cfg: dict, res: Result, H: History, reference=
             if op.get("fault"):
                 plan = {op["fault"]["site"]: {"kind": "raise_any"}}
             out = apply_op(sim, world, op["do"], plan)
+            kept.append(out[1] if out[0] == "ok" else None)
             if op["do"][0] == "set_input" and out[0] == "ok":
                 held.add((op["do"][1], _pstr(op["do"][2])))
             elif op["do"][0] == "delete_arrays":
@@ -270,6 +272,15 @@ def run_config(scn, world: World, cfg: dict, res: Result, H: History, reference=
                     res.count("clause:C17.equal")
                     if ref_out != canon_outcome(out):
                         res.violate("C17.equal", step, op=op["do"], expected=ref_out, got=canon_outcome(out), config=cfg)
+
+        # C17.equal, late: the arrays the requests returned, looked at again now ----
+        late = [canon(a) for a in kept]
+        if reference is not None and reference_late is not None:
+            res.count("clause:C17.equal.late")
+            for step, (a, b) in enumerate(zip(late, reference_late)):
+                if a != b and not outcomes[step][1] and not reference[step][1] and outcomes[step][0] == reference[step][0]:
+                    res.violate("C17.equal", step, op=scn["ops"][step]["do"], what="an array returned earlier changed afterwards", expected=b, got=a, config=cfg)
+                    break
 
         # C17.trace -------------------------------------------------------------
         if traced_since is not None:
@@ -312,7 +323,7 @@ def run_config(scn, world: World, cfg: dict, res: Result, H: History, reference=
             if env.fs.n["load"]:
                 res.count("probe:disk_get")
         res.count("clock_reads", env.clock.reads)
-    return outcomes, frames_total
+    return outcomes, frames_total, late
 
 
 def _pstr(p):
@@ -330,12 +341,12 @@ def run(scn) -> Result:
     world = World(scn["world"])
     H = History()
     try:
-        reference, frames = run_config(scn, world, {"clock": "steady"}, res, H)
+        reference, frames, reference_late = run_config(scn, world, {"clock": "steady"}, res, H)
         res.count("executions")
         for cfg in scn["configs"]:
             n0 = len(H.events)
             sub = Result()
-            _, f = run_config(scn, world, cfg, sub, H, reference=reference)
+            _, f, _late = run_config(scn, world, cfg, sub, H, reference=reference, reference_late=reference_late)
             res.count("executions")
             for k, n in sub.stats.items():
                 res.count(k, n)
